@@ -216,8 +216,17 @@ func checkC16(c DocCase, r *rec.Rec) error {
 		return fmt.Errorf("bad case: %v", err)
 	}
 	viol := func(e error) error { return e }
-	if id := c16Known(v); id != "" {
+	id := c16Known(v)
+	if id == "D18" {
 		viol = func(e error) error { return rec.Known(id, "%s", e.Error()) }
+	}
+	// D19 is the listed finding only in the form it was found in: jd's YAML
+	// for the blank root string reads back as the empty document.
+	violVoid := func(got jd.JsonNode, e error) error {
+		if id == "D19" && got != nil && got.Json() == "" {
+			return rec.Known(id, "%s", e.Error())
+		}
+		return viol(e)
 	}
 	jsonText := val.JSON(v)
 	var n jd.JsonNode
@@ -254,7 +263,7 @@ func checkC16(c DocCase, r *rec.Rec) error {
 		return viol(rec.Violated("jd cannot read its own YAML for %s: %v\nyaml:\n%s", jsonText, rerr, ys))
 	}
 	if !n3.Equals(n) || !n.Equals(n3) {
-		return viol(rec.Violated("YAML round trip of %s gives %s\nyaml:\n%s", jsonText, showText(n3.Json()), ys))
+		return violVoid(n3, rec.Violated("YAML round trip of %s gives %s\nyaml:\n%s", jsonText, showText(n3.Json()), ys))
 	}
 	if err := sameDoc(n3, v, "YAML round trip of "+jsonText); err != nil {
 		return viol(err)
@@ -273,7 +282,7 @@ func checkC16(c DocCase, r *rec.Rec) error {
 			return viol(rec.Violated("jd cannot read its own YAML(%s) for %s: %v\nyaml:\n%s", rd.name, jsonText, err, ys2))
 		}
 		if !ny.Equals(n, rd.opt) || !n.Equals(ny, rd.opt) {
-			return viol(rec.Violated("YAML(%s) round trip of %s gives %s, not equal under %s\nyaml:\n%s", rd.name, jsonText, showText(ny.Json()), rd.name, ys2))
+			return violVoid(ny, rec.Violated("YAML(%s) round trip of %s gives %s, not equal under %s\nyaml:\n%s", rd.name, jsonText, showText(ny.Json()), rd.name, ys2))
 		}
 		nj, err := jd.ReadJsonString(js2)
 		if err != nil {
